@@ -47,7 +47,7 @@ IMPLEMENTED = {
             'Values are only asserted where cffi promises them (what C sees right after restore, what ffi.errno returns right after save); sequentially consistent switching at explicit points only.'),
     'C16': ('H', 'exploration', 'DESIGN.md 3.11',
             'history refinement against a byte model over aliased array/pointer views, with faults injected inside multi-element slice assignments (k-th item unconvertible, iterator raising at item k, wrong counts); single client, no scheduler -- the fault-free configuration is plain model-based testing and is labelled as such',
-            'Seeded search over operation histories on arrays of 14 element kinds and their views; acceptance rules, aliasing, pointer identities and the exact memory effect of accepted, rejected and partially failed operations are compared with one bytearray per allocation after every op.',
+            'Seeded search over operation histories on arrays of 16 element kinds (item sizes 1,2,3,4,6,8) and their views; acceptance rules, aliasing, pointer identities and the exact memory effect of accepted, rejected and partially failed operations are compared with one bytearray per allocation after every op.',
             'Weakest fit for the technique (no schedule, clock or crash): what simulation adds is the history over aliased views and fault placement inside slice assignment; partial-write relaxation as documented in DESIGN 3.11.'),
     'C19': ('H', 'exploration', 'DESIGN.md 3.12',
             'history refinement against a byte model over cdata / bytearray / array.array stores and ffi.buffer / from_buffer views, with injected refusing exporters, wrong-length/type assignments, every memmove overlap class, and drop + GC + churn of the cdata behind a live view; single client, no scheduler',
